@@ -79,6 +79,10 @@ class temperature(PseudoNetCDFFile):
         for i, (t, d) in enumerate(times):
             if (t, d) != (self.STIME, self.SDATE):
                 break
+        else:
+            raise ValueError('All records have the same time; the number ' +
+                             'of layers cannot be determined from less ' +
+                             'than two time steps')
         self.SDATE = self.SDATE.view('i')
         self.createDimension('LAY', i - 1)
         self.createDimension('TSTEP', times.shape[0] / i)
